@@ -1,4 +1,5 @@
 import L21.Props.C04
+import L21.Props.C04D
 import L21.Props.C05RT
 import L21.Props.C11
 #print axioms L21.LefEnum.c04_enum_strings_canonical
@@ -9,3 +10,6 @@ import L21.Props.C11
 #print axioms L21.LefLex.c11_tokens_are_substrings
 #print axioms L21.Lef.c05_write_read_tokens
 #print axioms L21.Lef.c05_decimal_text_roundtrip
+#print axioms L21.Lef.c04_decimal_every_spelling
+#print axioms L21.Lef.c04_trailing_zeros
+#print axioms L21.Lef.c04_leading_zeros
